@@ -836,6 +836,9 @@ def run(ctx, res):
     _inside(res, rng, th)
     _event(res, rng, th)
     _pathlines(res, rng, th)
+    # representation- and history-robustness of the public functions (harness/apirobust.py)
+    from .. import apirobust_cases as _AC
+    _AC.c18(res, np.random.default_rng(ctx["seed"] + 4242), ctx)
 
 
 def replay(data):
